@@ -258,15 +258,20 @@ def Conn.getOrCreateChan (c : Conn) (b : Bunch) (incoming : Bool) : Conn × Opti
       (c, c.getChan b.chIndex)
     else (c, none)
 
+/-- `mark_channel_close` -/
+def Channel.markClosed (x : Channel) (reason : Nat) : Channel :=
+  if x.bClose then x else { x with bClose := true, closeReason := reason % 16 }
+
+/-- record that a deferred teardown is owed (`bHasChannelClose`) -/
+def Conn.oweTeardown (c : Conn) : Conn := { c with hasChannelClose := true }
+
 /-- `utcp_note_close` (connection part + `utcp_channels_mark_close`) -/
 def Conn.noteClose (c : Conn) (b : Bunch) : Conn :=
   if !b.bClose then c else
   let c := if b.chIndex == 0 then c.markClose crControlChannelClose else c
   match c.getChan b.chIndex with
   | none => c
-  | some x =>
-    let x := if x.bClose then x else { x with bClose := true, closeReason := b.closeReason % 16 }
-    { c.setChan b.chIndex x with hasChannelClose := true }
+  | some x => (c.setChan b.chIndex (x.markClosed b.closeReason)).oweTeardown
 
 /-! ## sending -/
 
@@ -451,32 +456,36 @@ inductive MergeResult where
 
 def Conn.freeNodes (c : Conn) (k : Nat) : Conn := (List.range k).foldl (fun c _ => c.emit (.free .node)) c
 
+/-- does fragment `b` continue the group whose last fragment is `last`? (`bSequenceMatches`) -/
+def seqMatches (last b : Bunch) : Bool :=
+  if b.bReliable then b.chSeq == last.chSeq + 1 else (b.chSeq == last.chSeq + 1 || b.chSeq == last.chSeq)
+
+/-- the merge condition of `merge_partial_data` -/
+def canMerge (last b : Bunch) : Bool := !last.bPartialFinal && seqMatches last b && last.bReliable == b.bReliable
+
+/-- an initial fragment arrives -/
+def mergeInitial (c : Conn) (x : Channel) (b : Bunch) : Conn × Channel × MergeResult × Bool :=
+  match x.inPartial.getLast? with
+  | none => (c, { x with inPartial := [b] }, .succeed, false)
+  | some last =>
+    if !last.bPartialFinal && last.bReliable then
+      -- an unfinished reliable group may not be destroyed
+      (c, x, if b.bReliable then .fatal else .failed, !b.bReliable)
+    else (c.freeNodes x.inPartial.length, { x with inPartial := [b] }, .succeed, false)
+
+/-- a non-initial fragment arrives -/
+def mergeNext (c : Conn) (x : Channel) (b : Bunch) : Conn × Channel × MergeResult × Bool :=
+  match x.inPartial.getLast? with
+  | none => (c, x, .failed, true)
+  | some last =>
+    if canMerge last b then
+      (c, { x with inPartial := x.inPartial ++ [b] }, if b.bPartialFinal then .available else .succeed, false)
+    else if last.bReliable then (c, x, if b.bReliable then .fatal else .failed, true)
+    else (c.freeNodes x.inPartial.length, { x with inPartial := [] }, .failed, true)
+
 /-- `merge_partial_data`: new channel, result, skipAck.  Freed nodes are logged on `c`. -/
 def mergePartial (c : Conn) (x : Channel) (b : Bunch) : Conn × Channel × MergeResult × Bool :=
-  let last? := x.inPartial.getLast?
-  if b.bPartialInitial then
-    match last? with
-    | some last =>
-      if !last.bPartialFinal && last.bReliable then
-        if b.bReliable then (c, x, .fatal, false) else (c, x, .failed, true)
-      else
-        (c.freeNodes x.inPartial.length, { x with inPartial := [b] }, .succeed, false)
-    | none => (c, { x with inPartial := [b] }, .succeed, false)
-  else
-    let seqMatches := match last? with
-      | some last =>
-        let relM := b.chSeq == last.chSeq + 1
-        if b.bReliable then relM else (relM || b.chSeq == last.chSeq)
-      | none => false
-    match last? with
-    | some last =>
-      if !last.bPartialFinal && seqMatches && last.bReliable == b.bReliable then
-        (c, { x with inPartial := x.inPartial ++ [b] }, if b.bPartialFinal then .available else .succeed, false)
-      else if last.bReliable then
-        (c, x, if b.bReliable then .fatal else .failed, true)
-      else
-        (c.freeNodes x.inPartial.length, { x with inPartial := [] }, .failed, true)
-    | none => (c, x, .failed, true)
+  if b.bPartialInitial then mergeInitial c x b else mergeNext c x b
 
 /-- `ReceivedNextBunch`; returns the connection and the skip-ack flag.  The bunch's node is live on entry. -/
 def Conn.receivedNextBunch (c : Conn) (b : Bunch) : Conn × Bool :=
@@ -533,6 +542,25 @@ def enqueueIncoming (b : Bunch) : List Bunch → Option (List Bunch)
     else if b.chSeq < q.chSeq then some (b :: q :: rest)
     else (enqueueIncoming b rest).map (q :: ·)
 
+/-- give a freshly parsed bunch its absolute channel sequence (`MakeRelative` against the channel's counter;
+unreliable partial fragments borrow the packet id) -/
+def absSeq (c : Conn) (x : Channel) (b : Bunch) : Bunch :=
+  if b.bReliable then { b with chSeq := MakeRelative_chseq b.chSeq x.inReliable }
+  else if b.bPartial then { b with chSeq := c.inPacketId } else b
+
+/-- the three-way decision of `ReceivedRawBunch`: already processed (drop), ahead of sequence (queue), or next -/
+def Conn.processBunch (c : Conn) (x : Channel) (b : Bunch) : Conn × Bool :=
+  if b.bReliable && decide (b.chSeq ≤ x.inReliable) then (c.emit (.free .node), false)
+  else if b.bReliable && b.chSeq != x.inReliable + 1 then
+    match enqueueIncoming b x.inRec with
+    | some q => (c.setChan b.chIndex { x with inRec := q }, false)
+    | none => (c.emit (.free .node), false)
+  else c.receivedNextBunch b
+
+/-- `DispatchWaitingBunches` with enough fuel for everything queued -/
+def Conn.dispatchAll (c : Conn) (ch : Nat) : Conn :=
+  Conn.dispatchWaiting (match c.getChan ch with | some x => x.inRec.length | none => 0) c ch
+
 /-- `ReceivedRawBunch` on the remaining bits of the packet: new state, remaining bits, skipAck -/
 def Conn.receivedRawBunch (c : Conn) (bits : Bits) : Conn × Bits × Bool :=
   let c := c.emit (.alloc .node)
@@ -541,21 +569,11 @@ def Conn.receivedRawBunch (c : Conn) (bits : Bits) : Conn × Bits × Bool :=
   | .ok b rest =>
     let b := { b with packetId := c.inPacketId }
     if b.chIndex ≥ maxChannels then ((c.markClose crBunchBadChannelIndex).emit (.free .node), rest, false) else
-    let (c, x?) := c.getOrCreateChan b true
-    match x? with
-    | none => (c.emit (.free .node), rest, false)
+    match (c.getOrCreateChan b true).2 with
+    | none => ((c.getOrCreateChan b true).1.emit (.free .node), rest, false)
     | some x =>
-      let b := if b.bReliable then { b with chSeq := MakeRelative_chseq b.chSeq x.inReliable }
-               else if b.bPartial then { b with chSeq := c.inPacketId } else b
-      let (c, skip) :=
-        if b.bReliable && decide (b.chSeq ≤ x.inReliable) then (c.emit (.free .node), false)
-        else if b.bReliable && b.chSeq != x.inReliable + 1 then
-          match enqueueIncoming b x.inRec with
-          | some q => (c.setChan b.chIndex { x with inRec := q }, false)
-          | none => (c.emit (.free .node), false)
-        else c.receivedNextBunch b
-      let fuel := match c.getChan b.chIndex with | some x => x.inRec.length | none => 0
-      (Conn.dispatchWaiting fuel c b.chIndex, rest, skip)
+      let r := (c.getOrCreateChan b true).1.processBunch x (absSeq (c.getOrCreateChan b true).1 x b)
+      (r.1.dispatchAll b.chIndex, rest, r.2)
 
 /-- the bunch loop of `ReceivedPacket` -/
 def Conn.bunchLoop (fuel : Nat) (c : Conn) (bits : Bits) (skip : Bool) : Conn × Bits × Bool :=
